@@ -745,6 +745,11 @@ fn op_matches(got: &Op, want: &Op, imm_bits: u32) -> bool {
 }
 
 /// Check one disassembled entry; returns (symptom, detail) on mismatch.
+thread_local! {
+    /// first (name, mnemonic in the text, instruction) seen per atomic-add opcode
+    static XADD_NAMES: std::cell::RefCell<std::collections::HashMap<u8, (String, String, I)>> = std::cell::RefCell::new(std::collections::HashMap::new());
+}
+
 fn c15_check_entry(e: &rbpf::disassembler::HLInsn, i: &I, hi: Option<i32>) -> Option<(String, String)> {
     let k = isa::kind(i.opc).unwrap();
     if e.opc != i.opc {
@@ -773,8 +778,15 @@ fn c15_check_entry(e: &rbpf::disassembler::HLInsn, i: &I, hi: Option<i32>) -> Op
         names.push(if to_be { "be".into() } else { "le".into() });
     }
     if matches!(k, Kind::Xadd(_)) {
+        // the assembler has no mnemonic for the atomic add, so the disassembler's own name is the
+        // only definition: it must be one name per opcode, whatever the operand fields hold
         if e.name.is_empty() {
             return Some(("name-empty".into(), "empty name".into()));
+        }
+        let text_head = e.desc.split_whitespace().next().unwrap_or("").to_string();
+        let first = XADD_NAMES.with(|m| m.borrow_mut().entry(i.opc).or_insert_with(|| (e.name.clone(), text_head.clone(), *i)).clone());
+        if first.0 != e.name || first.1 != text_head {
+            return Some(("name-depends-on-operands".into(), format!("opcode {:#x} is named {:?} (text {:?}) here and {:?} (text {:?}) for other operand values", i.opc, e.name, text_head, first.0, first.1)));
         }
     } else if strict_text && !names.iter().any(|n| *n == e.name) {
         return Some(("name-mismatch".into(), format!("name {:?} not among {:?}", e.name, names)));
@@ -834,6 +846,15 @@ fn c15_check_prog(s: &mut Sink, insns: &[I], class: &str) -> u64 {
         }
         if let Some((sym, det)) = c15_check_entry(&entries[n], i, hi) {
             let m = isa::mnemonic(i).unwrap_or_default();
+            if sym == "name-depends-on-operands" {
+                // replayable as a pair: the instruction that fixed the name, then this one
+                let first = XADD_NAMES.with(|mm| mm.borrow().get(&i.opc).map(|x| x.2)).unwrap_or(*i);
+                s.violation(&format!("disasm/{m}/{sym}"), format!("insn {:?}: {det}", i), json!({"kind":"disasm","prog":hex(&isa::enc(&[first, *i]))}));
+                checked += 1;
+                n += 1;
+                k += 1;
+                continue;
+            }
             s.violation(&format!("disasm/{m}/{sym}"), format!("insn {:?}: {det}", i), json!({"kind":"disasm","prog":hex(&isa::enc(if insns.len() <= 16 { insns } else if hi.is_some() { &insns[k..k + 2] } else { &insns[k..k + 1] }))}));
         }
         checked += 1;
